@@ -114,11 +114,59 @@ UNITS += [
 """),
 ]
 
+OD = "crates/backend/src/opendal.rs"
+WOD = dict(wrap_open="impl OpenDalIo {", wrap_close="}")
+WROD = "impl ReadBackend for OpenDALBackend {"
+UNITS += [
+    Unit(name="opendal_read_full", file=OD, anchor="fn read_full(&self, tpe: FileType, id: &Id) -> RusticResult<Bytes>", within=WROD, ret_name="r", **WOD,
+         functions=["<rustic_backend::opendal::OpenDALBackend as ReadBackend>::read_full"],
+         rewrites=[R_LOG, R_MAPERR],
+         contract="""
+    ensures /*@object_store_full_read_returns_exactly_the_stored_bytes*/ r matches Ok(d) ==> self.operator.files@.dom().contains(norm(tpe, *id)) && d.data@ == self.operator.files@[norm(tpe, *id)],
+"""),
+    Unit(name="opendal_read_partial", file=OD, anchor="fn read_partial(\n        &self,\n        tpe: FileType,\n        id: &Id,\n        _cacheable: bool,", within=WROD, ret_name="r", **WOD,
+         functions=["<rustic_backend::opendal::OpenDALBackend as ReadBackend>::read_partial"],
+         rewrites=[R_LOG, R_MAPERR,
+                   Rw(r"u64::from\((?P<e>[^()]*)\)", r"((\g<e>) as u64)", regex=True, count=None, why="u64::from(u32 expression) -> cast (the u32 arithmetic inside stays as written)"),
+                   Rw(r"ReadOptions \{\s*range: range\.into\(\),\s*\.\.Default::default\(\)\s*\}", "vread_options(range)", regex=True, why="ReadOptions with a byte range (struct update from Default) -> stub"),
+         ],
+         contract="""
+    ensures
+        /*@object_store_ranged_read_returns_exactly_that_range*/ r matches Ok(d) ==> self.operator.files@.dom().contains(norm(tpe, *id)) && offset + length <= self.operator.files@[norm(tpe, *id)].len()
+            && d.data@ =~= self.operator.files@[norm(tpe, *id)].subrange(offset as int, offset + length),
+    // (implicit obligation: no arithmetic overflow for ANY offset and length -- an out-of-range request must be an error, not a panic)
+"""),
+]
+
+WWOD = "impl WriteBackend for OpenDALBackend {"
+UNITS += [
+    Unit(name="opendal_write_bytes", file=OD, anchor="fn write_bytes(\n        &self,\n        tpe: FileType,\n        id: &Id,\n        _cacheable: bool,\n        content: BytesList,", within=WWOD, ret_name="r", **WOD,
+         functions=["<rustic_backend::opendal::OpenDALBackend as WriteBackend>::write_bytes"],
+         rewrites=[R_LOG, R_MAPERR,
+                   Rw("content: BytesList,\n    ) -> RusticResult<()>", "content: BytesList, vop: &mut VOperatorW,\n    ) -> RusticResult<()>", sig=True, why="ghost parameter: the object store as a map (interior mutability of the operator made explicit)"),
+                   Rw("self.operator.write(", "vop.write(", why="operator -> ghost map parameter")],
+         contract="""
+    ensures
+        /*@object_store_write_stores_exactly_the_content_under_this_key*/ r is Ok ==> final(vop).files@ == old(vop).files@.insert(norm(tpe, *id), content.data@),
+        /*@failed_object_store_write_changes_nothing*/ r is Err ==> final(vop).files@ == old(vop).files@,
+"""),
+    Unit(name="opendal_remove", file=OD, anchor="fn remove(&self, tpe: FileType, id: &Id, _cacheable: bool) -> RusticResult<()>", within=WWOD, ret_name="r", **WOD,
+         functions=["<rustic_backend::opendal::OpenDALBackend as WriteBackend>::remove"],
+         rewrites=[R_LOG, R_MAPERR,
+                   Rw("_cacheable: bool) -> RusticResult<()>", "_cacheable: bool, vop: &mut VOperatorW) -> RusticResult<()>", sig=True, why="ghost parameter: the object store as a map"),
+                   Rw("self.operator.delete(", "vop.delete(", why="operator -> ghost map parameter")],
+         contract="""
+    ensures
+        /*@object_store_remove_removes_exactly_this_key*/ r is Ok ==> final(vop).files@ == old(vop).files@.remove(norm(tpe, *id)),
+        /*@failed_object_store_remove_changes_nothing*/ r is Err ==> final(vop).files@ == old(vop).files@,
+"""),
+]
+
 KANI = []
 META = {"not_covered": [
     "listings: the directory walk itself (walkdir: every file of the type's directory is yielded once), the Config special case of both listings and the name parser Id::from_str (which names are ids: uninterpreted) are NOT decided; the per-entry closures of list and list_with_size ARE units (regular files named by an id, with their true size; the nested helper `length` elided)",
     "the path building itself (base_path / filename / path: PathBuf joins, hex strings): stubs naming the file of a (type, id); Config files ignore the id",
     "the nested helper write_local_file (create/truncate/set_len/copy/sync_all) is elided: assumed to write the whole content or fail leaving anything under THAT name; fs::rename assumed atomic (POSIX); crash behaviour of the file system itself",
-    "the generic object-store adapter (opendal.rs), rclone and rest backends; the in-memory test backend",
+    "of the generic object-store adapter (opendal.rs) read_full / read_partial / write_bytes / remove ARE units over the operator as a map (opendal itself, its fs and memory services, retry/throttle layers: assumed); its listings, create and the path strings are not; rclone and rest backends; the in-memory test backend",
     "post-create / post-delete user commands (call_command): assumed not to touch the repository files",
 ]}
